@@ -238,8 +238,8 @@ def generate(rng, tier):
             sig = ('tx', default, bool(m.auto_message_payload), bool(m.esm_class & 0x40), str(m.encoding), tag,
                    (out[0], len(o['written']), out[2] if out[0] == 'failed' else ''))
             inp = {'op': 'tx', 'default': default, 'line': o['line'], 'ref': o['ref'], 'seq': o['seq']}
-            opaque = L.is_opaque(m.encoding) or L.is_opaque(default) or L.is_opaque(getattr(m, 'error_handling', 'strict')) \
-                if hasattr(L, 'is_opaque') else False
+            # codecs and registered Python error handlers (xmlcharrefreplace, ...) the models do not describe: predicate only
+            opaque = L.is_opaque(m.encoding) or L.is_opaque(default) or m.error_handling in L.REGISTERED_HANDLERS
             if opaque:
                 yield Case('# opaque ' + line, '# opaque ' + line, sig, fail, inp)
             else:
